@@ -17,7 +17,7 @@ RULE = ("request programs (nested/sequential requests with reset/exclusive/reset
 
 
 def count_requests(p):
-    if p[0] == "request":
+    if p[0] in ("request", "hrequest"):
         return 1 + count_requests(p[5])
     if p[0] == "seq":
         return count_requests(p[1]) + count_requests(p[2])
@@ -31,7 +31,7 @@ def count_requests(p):
 def has_ka_reconf(p):
     if p[0] == "reconf":
         return p[1] is True or has_ka_reconf(p[3])
-    if p[0] == "request":
+    if p[0] in ("request", "hrequest"):
         return has_ka_reconf(p[5])
     if p[0] == "seq":
         return has_ka_reconf(p[1]) or has_ka_reconf(p[2])
@@ -81,6 +81,13 @@ class LifeSuite(cx.CtxSuiteBase):
                         if rng.random() < 0.5:
                             yield {"prog": top, "ka": ka, "roe": roe, "faults": [False] * i + [True], "hook": rng.choice([31, 31, rng.randint(1, 30)])}
                     yield {"prog": top, "ka": ka, "roe": roe, "faults": [rng.random() < 0.3 for _ in range(12)], "hook": rng.randint(1, 31)}
+                    # faults raised as BaseException (not Exception) subclasses: nothing may be left alive either
+                    if rng.random() < 0.5:
+                        yield {"prog": top, "ka": ka, "roe": roe, "faults": [False] * rng.randint(0, nf) + [True], "base_exc": True}
+                        yield {"prog": top, "ka": True, "roe": roe, "faults": [rng.random() < 0.3 for _ in range(12)], "base_exc": True}
+                    # the same program through the handle API (`with ctx() as cx: cx.request(...)`)
+                    if rng.random() < 0.3:
+                        yield {"prog": cx.to_handle_api(top, rng), "ka": ka, "roe": roe, "faults": [rng.random() < 0.15 for _ in range(10)]}
                     if not ka:
                         yield {"prog": p, "ka": ka, "roe": roe, "faults": [rng.random() < 0.2 for _ in range(8)]}
                     # the same Context object entered twice in a row, the first exit possibly faulting (caught): nothing
